@@ -127,6 +127,17 @@ def r1_parseinfo(a, tier):
     if len(ctor) != 1:
         raise AnalysisError('make_parseinfo: expected one ParseInfo(...) construction')
     from ..rules.common import through_locals
+    # freshness: what make_parseinfo returns is None or the ParseInfo built IN THIS CALL from the current state (a remembered object
+    # carries the end position of an earlier exit of the rule: a left-recursive rule exits several times from the same start)
+    built_targets = {norm(t) for n in walk_no_defs(mp.node) if isinstance(n, ast.Assign) and n.value is ctor[0] for t in n.targets}
+    other_sources = {norm(t) for n in walk_no_defs(mp.node) if isinstance(n, ast.Assign) and n.value is not ctor[0] for t in n.targets}
+    for r in [n for n in walk_no_defs(mp.node) if isinstance(n, ast.Return)]:
+        v = r.value
+        fresh = v is None or (isinstance(v, ast.Constant) and v.value is None) or v is ctor[0] or (norm(v) in built_targets and norm(v) not in other_sources)
+        rep.add({'make_parseinfo_returns': norm(v) if v is not None else 'None', 'built_in_this_call_or_None': fresh})
+        if not fresh:
+            rep.fail(mp.qualname, f'parseinfo-not-fresh:{norm(v)[:30]}', f'make_parseinfo returns `{norm(v)}`, which is not the ParseInfo constructed in this call: '
+                     f'the end offset and end line it carries belong to an earlier exit', f'{mp.module.relpath}:{r.lineno}')
 
     def res(fn, e):
         """text of E with single-assignment locals of FN looked through (endpos -> self.pos, cur -> self.cursor)"""
@@ -327,7 +338,7 @@ def r3_line_index_exhaustive(a, tier):
         ('tatsu.input.textlines.TextLinesCursor', lambda cache, idx, text: Stub('tatsu.input.textlines.TextLinesCursor', pos=0, _input=Stub(
             'tatsu.input.textlines.TextLines', line_cache=cache, line_index=idx, textstr=text, len=len(text), source='src'))),
         ('tatsu.input.buffer.BufferCursor', lambda cache, idx, text: Stub('tatsu.input.buffer.BufferCursor', pos=0, buffer=Stub(
-            'tatsu.input.buffer.Buffer', linecache=cache, lineindex=idx, text=text, source='src'), textstr=text)),
+            'tatsu.input.buffer.Buffer', pos=0, linecache=cache, lineindex=idx, text=text, source='src', len=len(text)), textstr=text)),
         ('tatsu.input.buffer.Buffer', lambda cache, idx, text: Stub('tatsu.input.buffer.Buffer', pos=0, linecache=cache, lineindex=idx,
                                                                  text=text, source='src', len=len(text))),
     ]
@@ -362,6 +373,20 @@ def r3_line_index_exhaustive(a, tier):
                         raise AnalysisError(f'cannot interpret {q}.lineinfo/lineat/poscol: {e}') from e
                     got = (li['line'], li['col'], li['start'], li['text'])
                     ok = got == w and la == w[0] and pc == w[1]
+                    if at == 0:
+                        # without an argument the position is the CURSOR's own (a failure asks its cursor with no argument); the
+                        # underlying buffer of a BufferCursor keeps standing at 0
+                        cur2 = mk(cache, idx, text)
+                        cur2._attrs['pos'] = p_
+                        it2 = ModelInterp(a, dict(hooks))
+                        try:
+                            li2 = it2.apply(it2.get_attr(cur2, 'lineinfo'), [], {})
+                        except Unsupported as e:
+                            raise AnalysisError(f'cannot interpret {q}.lineinfo(): {e}') from e
+                        got2 = (li2['line'], li2['col'], li2['start'], li2['text'])
+                        if got2 != w:
+                            ok = False
+                            got = got2
                     rep.add({'impl': q.split('.')[-1], 'text': text, 'cursor_at': at, 'offset': p_, 'lineinfo': list(got), 'lineat': la, 'poscol': pc, 'ok': ok})
                     if not ok and n_bad < 8:
                         n_bad += 1
